@@ -283,6 +283,7 @@ void barrier(World &w, int me, bool final) {
   while (w.barrier_gen == my_gen)
     harness_yield(&w.barrier_gen);
   mark_progress();
+  global_progress();
   (void)me;
 }
 
@@ -660,6 +661,7 @@ void client(World &w, int me, const std::vector< long > &prog) {
       break;
     }
     mark_progress();
+    global_progress();
   }
   // release everything, then final barrier
   if (!w.failed) {
@@ -887,6 +889,7 @@ public:
       out.vclass = w.violation.vclass;
       out.message = w.violation.message;
     }
+    out.restart_worker = !finished;
     out.hash = rs.hash;
     out.executed = rs.executed;
     out.nontrivial = w.nclients >= 2 && rs.switches > 0;
